@@ -66,6 +66,11 @@ try:
             sync("publish")
             return real_os.rename(a, b)
 
+        def makedirs(self, *a, **kw):
+            if real_os.environ.get("VERIF_MKDIR_SYNC"):
+                sync("mkdir")
+            return real_os.makedirs(*a, **kw)
+
         def unlink(self, path):
             if str(path).endswith(".c"):
                 sync("unlink")
